@@ -9,6 +9,11 @@ def budget(tier):
 
 
 def gen_case(rng, tier, idx):
+    if idx % 30 == 13:
+        # one round with more than two hundred parties
+        from ..runnerdrive import gen_big_auction_case
+
+        return gen_big_auction_case(rng)
     return gen_accounting_case(rng, tier, hft=(rng.choice([1, 2, 3]) if idx % 2 == 0 else None))
 
 
